@@ -39,18 +39,18 @@ def isBare (entryName : String) (es : Entries) : Bool :=
 abbrev Found := List String × Bool
 
 mutual
-/-- the `fs.WalkDir` callback of `discoverRoot` at one entry; `pre` = components of its path, `entryName` = its name
-    (the root's base name for the root itself) -/
-def walk (pre : List String) (entryName : String) : Tree → List Found
+/-- the `fs.WalkDir` callback of `discoverRoot` at one entry called `entryName` (the root's base name for the root
+    itself); found repositories are given by their path components relative to that entry -/
+def walk (entryName : String) : Tree → List Found
   | .dir es =>
-    if isWork es then [(pre, false)]           -- add(relativePath, false); fs.SkipDir
-    else if isBare entryName es then [(pre, true)]
-    else walkList pre es
+    if isWork es then [([], false)]            -- add(relativePath, false); fs.SkipDir
+    else if isBare entryName es then [([], true)]
+    else walkList es
   | .file => []
   | .other => []
-def walkList (pre : List String) : Entries → List Found
+def walkList : Entries → List Found
   | [] => []
-  | (n, t) :: rest => walk (pre ++ [n]) n t ++ walkList pre rest
+  | (n, t) :: rest => (walk n t).map (fun f => (n :: f.1, f.2)) ++ walkList rest
 end
 
 def baseName (root : String) : String := (root.splitOn "/").getLast?.getD ""
@@ -65,7 +65,7 @@ def specOf (root : String) (f : Found) : String × String :=
 
 /-- `discoverRoot` for a resolved root path -/
 def discoverRoot (root : String) (t : Tree) : List (String × String) :=
-  (walk [] (baseName root) t).map (specOf root)
+  (walk (baseName root) t).map (specOf root)
 
 inductive DiscErr where
   | dupRoot | dupName | dupSource
